@@ -628,6 +628,11 @@ func (p *Parser) resourceHeader(sec section) (ResourceHeader, error) {
 	if err != nil {
 		return ResourceHeader{}, err
 	}
+	if off+int(hdr.Length) > len(p.msg) {
+		// The resource data must lie within the message, otherwise
+		// parsing the body would move the parser past its end.
+		return ResourceHeader{}, errResourceLen
+	}
 	p.resHeaderValid = true
 	p.resHeaderOffset = p.off
 	p.resHeaderType = hdr.Type
